@@ -857,6 +857,62 @@ theorem exportable_of_init (ext : Ext) (g : Genesis) (st : Store) (h : Genesis.i
   exportable_of_settled ext st (good_init ext g st h) (settled_init ext g st h) (init_no_pending ext g st h)
 
 
+/-! ### exactly what the round trip loses: the pending-owner entry and nothing else -/
+
+theorem scan_del_other (s : Store) (k : Bytes) (p : Bytes) (h : isPrefixOf p k = false) :
+    (s.del k).scan p = s.scan p := by
+  induction s with
+  | nil => rfl
+  | cons e rest ih =>
+    obtain ⟨k', v'⟩ := e
+    simp only [Store.del]
+    split
+    · rename_i e; subst e; simp [Store.scan, h]
+    · simp only [Store.scan, List.filter_cons] at ih ⊢
+      rw [ih]
+
+/-- `ExportGenesis` does not read the pending-owner entry. -/
+theorem export_ignores_pending (st : Store) : exportG (st.del Key.pendingOwner) = exportG st := by
+  have g : ∀ k, Key.cls k ≠ 1 → (st.del Key.pendingOwner).get k = st.get k := fun k h =>
+    Store.get_del_other _ _ _ (fun e => h (by rw [e]; rfl))
+  have r : ∀ k, Key.cls k ≠ 1 → getRole (st.del Key.pendingOwner) k = getRole st k := fun k h => by
+    unfold getRole; rw [g k h]
+  have sc : ∀ p, isPrefixOf p Key.pendingOwner = false → (st.del Key.pendingOwner).scan p = st.scan p :=
+    fun p h => scan_del_other _ _ _ h
+  unfold exportG
+  rw [r Key.owner (by simp), r Key.attesterManager (by simp), r Key.pauser (by simp), r Key.tokenController (by simp)]
+  simp only [attestersOf, scanMap, getFlag, getSize, getNextNonce, getThreshold,
+    sc AttesterKeyPrefix (by decide), sc PerMessageBurnLimitKeyPrefix (by decide), sc TokenPairKeyPrefix (by decide),
+    sc UsedNonceKeyPrefix (by decide), sc RemoteTokenMessengerKeyPrefix (by decide),
+    g Key.burnPaused (by simp), g Key.sendPaused (by simp), g Key.maxBody (by simp), g Key.nextNonce (by simp),
+    g Key.threshold (by simp)]
+
+/-- **The known finding, exactly**: for every state reachable from a genesis by any history — with or without
+    an ownership transfer in flight — exporting and importing into an empty chain rebuilds the store *minus the
+    pending-owner entry*: every other entry survives, and that one never does. -/
+theorem roundtrip_loses_only_pending (ext : Ext) (cfg : Cfg) (g : Genesis) (st0 : Store) (led : Ledger) (h : History)
+    (hi : Genesis.init ext [] g = .ok st0) :
+    ∃ g', exportG (runState ext cfg ⟨st0, led⟩ h).store = .ok g' ∧
+      Genesis.init ext [] g' = .ok ((runState ext cfg ⟨st0, led⟩ h).store.del Key.pendingOwner) := by
+  have hg := good_run ext cfg h ⟨st0, led⟩ (good_init ext g st0 hi)
+  have hs := settled_run ext cfg h ⟨st0, led⟩ (good_init ext g st0 hi) (settled_init ext g st0 hi)
+  generalize (runState ext cfg ⟨st0, led⟩ h).store = st at hg hs
+  have hg' : Good ext (st.del Key.pendingOwner) := by
+    have := good_apply (ext := ext) (s := st) (Key.pendingOwner, none) hg (by intro v hv; cases hv)
+    simpa [Store.apply] using this
+  have hs' : Settled (st.del Key.pendingOwner) := by
+    constructor
+    · intro k hk
+      rw [Store.get_del_other _ _ _ (fun e => slot_cls hk (Or.inl (by rw [e]; rfl)))]
+      exact hs.filled k hk
+    · intro t ht
+      rw [Store.get_del_other _ _ _ (Key.ne_of_cls (by simp))] at ht
+      exact hs.thr t ht
+  obtain ⟨g', h1, h2, _⟩ := init_export_partial ext _ hg'
+    (exportable_of_settled ext _ hg' hs' (Store.get_del_same _ _ hg.wf))
+  exact ⟨g', by rw [← export_ignores_pending]; exact h1, h2⟩
+
+
 /-! ### the KNOWN FINDING -/
 
 def toyExt : Ext := ⟨fun b => b, fun _ _ => none, fun b => some b, fun b => some b, id, fun _ _ => false, fun _ => false, id⟩
